@@ -110,6 +110,37 @@ func vpH_C17_every_type() {
 	vpReach("end")
 }
 
+// object types declared in another scope (the twins of c08b.go): ordered by their instants like any
+// object, also when nothing at all is set on them (both instants zero: never before anything, after
+// every object that has an instant)
+func vpH_C17_foreign() {
+	p, kp := vpInstant(false)
+	u, ku := vpInstant(true)
+	k := kp
+	if vpKeyLess(kp, ku) {
+		k = ku
+	}
+	// (only twins of Object: the ordering reads its instants through the Object view, and the library
+	// refuses to present a foreign type of another layout as Object - C08's refusal clause)
+	var a Item
+	kind := vpChoice(3)
+	switch kind {
+	case 0:
+		a = &vpFObject{ID: "https://h.ex/f", Published: p, Updated: u}
+	case 1:
+		a = &vpFObject{Published: p, Updated: u}
+	default:
+		a, k = &vpFObject{}, vpKey{vpZeroSec, 0}
+	}
+	b, keyB := vpC17Object(0)
+	cell := string([]byte{'0' + byte(kind)})
+	vpAssert("foreign/consistent/"+cell, ItemOrderTimestamp(a, b) == vpKeyLess(keyB, k))
+	vpAssert("foreign/consistent-rev/"+cell, ItemOrderTimestamp(b, a) == vpKeyLess(k, keyB))
+	vpAssert("foreign/irreflexive/"+cell, !ItemOrderTimestamp(a, a))
+	vpAssert("foreign/not-before-nil/"+cell, !ItemOrderTimestamp(a, nil))
+	vpReach("end")
+}
+
 func vpH_C17_pair_obj()   { vpC17Pair(0, 0) }
 func vpH_C17_pair_mixed() { vpC17Pair(1, 2) }
 func vpH_C17_pair_value() { vpC17Pair(3, 4) }
